@@ -2,6 +2,7 @@ package explore
 
 import (
 	"fmt"
+	"strings"
 	"time"
 )
 
@@ -78,6 +79,10 @@ func Hist(o HistOpts) HistStats {
 					st.Violation = viol
 					st.Hist = nh
 					return st
+				}
+				if strings.HasPrefix(key, "DEAD-END") || strings.HasPrefix(key, "DIVERGED") {
+					// the history cannot be continued meaningfully
+					continue
 				}
 				if o.Dedup {
 					if seen[key] {
